@@ -1,6 +1,7 @@
 SPECIFICATION SpecDump
 CONSTANTS
-  Bits = 2
-  NSlots = 3
+  Bits = 3
+  NSlots = 7
+VIEW View
 ACTION_CONSTRAINT Dump
 CHECK_DEADLOCK FALSE
